@@ -286,12 +286,13 @@ func Select(arr, idx Term, elem *Sort) Term {
 var rowAccIndex = map[string]int{"r.present": 0, "r.rowid": 1, "r.value": 2, "r.cas": 3, "r.exp": 4, "r.xattrs": 5,
 	"r.isJSON": 6, "r.tombstone": 7, "r.rev": 8,
 	"e.key": 0, "e.value": 1, "e.isDeletion": 2, "e.isJSON": 3, "e.xattrs": 4, "e.cas": 5, "e.exp": 6, "e.rev": 7,
-	"d.coll": 0, "d.key": 1}
+	"d.coll": 0, "d.key": 1,
+	"fe.opcode": 0, "fe.key": 1, "fe.value": 2, "fe.cas": 3, "fe.expiry": 4, "fe.datatype": 5, "fe.revno": 6, "fe.collid": 7}
 
 // Acc applies a datatype accessor, folding it over constructors and if-then-else.
 func Acc(sort *Sort, acc string, x Term) Term {
 	if i, ok := rowAccIndex[acc]; ok {
-		if (x.Op == "mkRow" || x.Op == "mkEvent" || x.Op == "mkId") && i < len(x.Args) {
+		if (x.Op == "mkRow" || x.Op == "mkEvent" || x.Op == "mkId" || x.Op == "mkFE") && i < len(x.Args) {
 			return x.Args[i]
 		}
 		if x.Op == "ite" && len(x.Args) == 3 {
